@@ -29,6 +29,8 @@ STORIES = {
     "deleted-synced-recreated-on-peer": ([(0, "delete_a"), (1, "create_a"), (0, "create_a")], [("Q", 1), 2, 1], 1),
     "moved-into-folder-peer-renames-folder": ([(0, "move_a_d"), (1, "rendir_d_e"), (0, "write_d_a")], [("Q", 1), 2, 1], 2),
     "both-rename-same-file-differently-then-edit": ([(0, "rename_a_b"), (1, "rename_a_c"), (0, "write_b")], [1, 2, 1], 1),
+    "folder-renamed-with-new-child-while-peer-empties-and-removes-it": ([(0, "create_d_n"), (0, "rendir_d_e"), (1, "delete_d_a"), (1, "rmdir_d")], [1, 0, 0, 2], 3),
+    "renamed-onto-a-deleted-name": ([(0, "delete_b"), (0, "mv:/a:/b"), (1, "write_a")], [("Q", 2), 2, 1], 3),
     "swap-through-temporary-name-peer-edits": ([(0, "mv:/a:/t"), (0, "mv:/b:/a"), (0, "mv:/t:/b"), (1, "write_a")], [1, 1, 1, 1], 3),
 }
 
@@ -183,7 +185,7 @@ def jobs(tier):
                         [[0, "rename_a_c"], [1, "rename_a_b"]], [[1, "rename_a_c"], [0, "rename_a_b"]]):
                 out.append({"harness": "hist", "params": {"flavour": f, "base": 2, "nops": 3, "slots": 1, "prefix": pre, "ext": pre[0][1] == "rename_a_c"},
                             "label": "%s/base2/3ops/prefix=%s" % (f, "+".join("%d:%s" % (a, b) for a, b in pre))})
-    for f in (("oid", "path") if tier == "quick" else ("oid", "path", "mixed")):
+    for f in ("oid", "path", "mixed"):        # 'mixed' (path ids locally, object ids remotely) is the pairing of a local folder with a cloud account
         for name in STORIES:
             for flip in (False, True):
                 out.append({"harness": "hist", "params": {"flavour": f, "story": name, "flip": flip}, "label": "%s/story=%s%s" % (f, name, "/flipped" if flip else "")})
